@@ -291,3 +291,115 @@ Example C15_tables_instance :
   map fst gm_process_read_response
   = ["unsolicited"; "source"; "sequence"; "unexpected_fir"; "never_fir"; "non_fin_without_con"; "iin2"].
 Proof. split; reflexivity. Qed.
+
+(* ---------------------------------------------------------------------------------------- *)
+(* ---- the COMPOSED master model (Master/MFull.v, engine `mfull`, second pass of the check): the verdict of
+   the object parser and the measurement items are COMPUTED from the received octets with App/Grammar.v and
+   the conversion model of C10 (App/Convert.v); the verdict / items an event carries are ignored.
+   [MF.mverdict frag], [MF.mitems frag], [MF.run cfg evs] = [MT.run cfg (map MF.compute_event evs)];
+   [fhist cfg evs k] = everything the composed run observed before step k; [resp_function h] = 129 / 130.
+   Lemmas in Master/MFullProofs.v. *)
+From Dnp3V Require Import App.Grammar App.Convert Master.MFull Master.MFullProofs.
+Import MP MCmd MT.
+
+(* the header half of the task model's parser IS the application-layer header parser + to_response *)
+Theorem C15_composed_header_parser_is_grammar : forall frag h objs,
+  parse_response frag = PResponse h objs ->
+  exists ah, aparse_header frag = AOk (ah, objs) /\ ato_response ah = None /\
+    ah_control ah = actl_of (h_ctrl h) /\ ah_function ah = resp_function h /\
+    ah_iin ah = Some (h_iin1 h, h_iin2 h).
+Proof. exact parse_response_header. Qed.
+Print Assumptions C15_composed_header_parser_is_grammar.
+
+Theorem C15_composed_header_parser_rejects_same : forall frag,
+  parse_response frag = PError <->
+  match aparse_header frag with
+  | AOk (ah, _) => ato_response ah <> None
+  | AErr _ => True
+  end.
+Proof. exact parse_response_error_iff. Qed.
+Print Assumptions C15_composed_header_parser_rejects_same.
+
+(* the verdict is a total function of the octets: none iff the application header does not parse, otherwise
+   what the validating pass over the object headers says *)
+Theorem C15_composed_verdict_total : forall frag,
+  match aparse_header frag with
+  | AErr _ => MF.mverdict frag = VNone
+  | AOk (ah, objs) =>
+      match avalidate MF.mopts (ah_function ah) objs with
+      | AOk _ => MF.mverdict frag = VOk
+      | AErr _ => MF.mverdict frag = VBad
+      end
+  end.
+Proof. exact mverdict_spec. Qed.
+Print Assumptions C15_composed_verdict_total.
+
+Theorem C15_composed_verdict_first_header_malformed : forall frag h objs e,
+  parse_response frag = PResponse h objs -> objs <> [] ->
+  aparse_one MF.mopts (resp_function h) objs = AErr e ->
+  MF.mverdict frag = VBad.
+Proof. exact mverdict_first_header_malformed. Qed.
+Print Assumptions C15_composed_verdict_first_header_malformed.
+
+(* C15_read_fragment_rule over octets: `v = VOk` is replaced by the Grammar fact that every object header of
+   the fragment parses; v0 / items0 (what the script attached to the event) are unconstrained *)
+Theorem C15_composed_read_fragment_rule : forall cfg evs k o rt hdr,
+  nth_error (MF.run cfg evs) (S k) = Some o -> In (OCbBegin rt hdr) (map snd o) -> rt <> RtUnsol ->
+  exists src frag v0 items0 h objs r c,
+    nth_error evs k = Some (ERx src frag v0 items0) /\ parse_response frag = PResponse h objs /\
+    h_unsol h = false /\ hdr = hdr_bytes h /\ src = c_addr cfg /\
+    avalidate MF.mopts fc_response objs = AOk c /\ iin2_bad (h_iin2 h) = false /\
+    last_request (fhist cfg evs k) = Some r /\ rq_fc r = 1 /\ answers r h.
+Proof. exact composed_read_fragment_rule. Qed.
+Print Assumptions C15_composed_read_fragment_rule.
+
+(* whatever reaches the handler in a step was computed from the octets received in that step *)
+Theorem C15_composed_handler_items : forall cfg evs k o it,
+  nth_error (MF.run cfg evs) (S k) = Some o -> In (OCbItem it) (map snd o) ->
+  exists src frag v0 items0,
+    nth_error evs k = Some (ERx src frag v0 items0) /\ In it (MF.mitems frag).
+Proof. exact composed_handler_items. Qed.
+Print Assumptions C15_composed_handler_items.
+
+Theorem C15_composed_agrees_with_honest_oracle : forall cfg evs,
+  Forall (fun ev => MF.compute_event ev = ev) evs -> MF.run cfg evs = MT.run cfg evs.
+Proof. exact composed_agrees_with_honest_oracle. Qed.
+Print Assumptions C15_composed_agrees_with_honest_oracle.
+
+(* non-vacuity.  A response whose only object header is cut short (g1v2, 8-bit range, stop octet missing) *)
+Example C15_composed_malformed_header :
+  parse_response [192; 129; 0; 0; 1; 2; 0; 5] = PResponse (mk_rhdr 192 false 0 0) [1; 2; 0; 5] /\
+  aparse_one MF.mopts 129 [1; 2; 0; 5] = AErr OEInsufficient /\
+  MF.mverdict [192; 129; 0; 0; 1; 2; 0; 5] = VBad /\
+  MF.mverdict [192; 129; 0] = VNone /\ MF.mverdict [192; 131; 0; 0] = VNone /\ MF.mverdict [192; 0] = VOk.
+Proof. repeat split; vm_compute; reflexivity. Qed.
+
+(* the two-fragment read of C15_two_fragment_read given to the composed model with WRONG oracle inputs (verdict
+   bad, a made-up item): the composed run is the run of the task model with the right ones, and the handler
+   receives the token computed from the octets, `bi/g1v2/00/e0f1/0=1,81,n` *)
+Definition ex_token : list N :=
+  [98; 105; 47; 103; 49; 118; 50; 47; 48; 48; 47; 101; 48; 102; 49; 47; 48; 61; 49; 44; 56; 49; 44; 110].
+
+Example C15_composed_two_fragment_read :
+  MF.mitems [160; 129; 0; 0; 1; 2; 0; 0; 0; 129] = [ex_token] /\
+  map MTaskProofs.act (MF.run ex_cfg
+    [EUser 7 (URead [60; 2; 6]);
+     ERx 1024 [160; 129; 0; 0; 1; 2; 0; 0; 0; 129] VBad [[120]];
+     ERx 1024 [65; 129; 0; 0] VNone []]) =
+  [[]; [];
+   [OCbBegin RtSingle [160; 129; 0; 0]; OCbItem ex_token; OCbEnd RtSingle [160; 129; 0; 0];
+    OTxConfirm 1024 false 0];
+   [OCbBegin RtSingle [65; 129; 0; 0]; OCbEnd RtSingle [65; 129; 0; 0]; ORes 7 ROk;
+    OInfoSuccess TUserRead 1 1]].
+Proof. split; vm_compute; reflexivity. Qed.
+
+(* a common time of occurrence (g51v1, 1000 ms) followed by a relative-time binary event (g2v3, index 7,
+   +5 ms) and an absolute time object: `bi/g2v3/17/e1f1/7=1,81,s1005` and `abs/g50v1/07/e0f0/0=9` *)
+Example C15_composed_cto :
+  let frag := [224; 130; 0; 0; 51; 1; 7; 1; 232; 3; 0; 0; 0; 0; 2; 3; 23; 1; 7; 129; 5; 0;
+               50; 1; 7; 1; 9; 0; 0; 0; 0; 0] in
+  MF.mitems frag =
+  [[98; 105; 47; 103; 50; 118; 51; 47; 49; 55; 47; 101; 49; 102; 49; 47; 55; 61; 49; 44; 56; 49; 44; 115; 49; 48; 48; 53];
+   [97; 98; 115; 47; 103; 53; 48; 118; 49; 47; 48; 55; 47; 101; 48; 102; 48; 47; 48; 61; 57]]
+  /\ MF.mcovered frag = true /\ MF.mverdict frag = VOk.
+Proof. repeat split; vm_compute; reflexivity. Qed.
